@@ -1131,7 +1131,7 @@ func c20Mask(s string) string {
 }
 
 func runC20(ctx *Ctx) error {
-	ctx.Res.Rule = "TAB (Gen/C20.lean, kernel-checked): target lists x {flag, old-style file}, every configuration key, every old-style key and legacy flag, the configuration style settled on for every (-old-config-style, kind of file, deprecated flag), through -output-config of the tool built from the working tree; RUN: seeded (document, configuration) x {new-style file, old-style file, legacy flags, file+flags, a file readable in both styles + deprecated flags without -old-config-style}: bytes of the tool's output vs codegen.Generate with the equivalent configuration (header line masked), -output-config fed back reproduces the output, rejected configurations (unknown key at every level and style, unknown target, two servers) exit non-zero and leave no output; non-trivial = every (document, configuration, mode)"
+	ctx.Res.Rule = "TAB (Gen/C20.lean, kernel-checked): target lists x {flag, old-style file}, every configuration key, every old-style key and legacy flag, the configuration style settled on for every (-old-config-style, kind of file, deprecated flag), through -output-config of the tool built from the working tree; RUN: seeded (document, configuration) x {new-style file, old-style file, legacy flags, file+flags, a file readable in both styles + deprecated flags without -old-config-style}: bytes of the tool's output vs codegen.Generate with the equivalent configuration (header line masked), -output-config fed back reproduces the output, rejected configurations (unknown key at every level and style, unknown target, two servers) exit non-zero and leave no output; non-trivial = every (document, configuration, mode) Session 9: the output file exists already with a much longer earlier result."
 	bin, err := c20Build(ctx)
 	if err != nil {
 		return err
